@@ -794,6 +794,22 @@ class NoPanic:
                 if not walk(cls, lambda st: st == 2, False):
                     continue
                 BOUND = 65
+                # the halved variable itself never exceeds its initial value (+1 transiently on the odd edge): n' = (n or n+1)/2 <= n for n >= 1
+                outs_n = [(b, i) for (b, i, k) in defs[n] if b not in body]
+                if len(outs_n) == 1 and fn.dominates(outs_n[0][0], h):
+                    b0, i0 = outs_n[0]
+                    t0 = B.ev.call_term(b0) if i0 == "term" else B.ev.rvalue(fn.blocks[b0].stmts[i0]["rv"], (b0, i0))
+                    hi0 = B.upper(t0, b0)
+                    if hi0 != INF:
+                        B.__dict__.setdefault("local_ranges", {})[n] = (0, hi0 + 1)
+                        for (b, i, k) in defs[n]:
+                            if b in body and i != "term":
+                                rv = fn.blocks[b].stmts[i]["rv"]
+                                o = (rv["op"].get("mv") or rv["op"].get("cp")) if rv["k"] == "use" else None
+                                if o and o.get("p") and len(o["p"]) == 1 and isinstance(o["p"][0], dict) and o["p"][0].get("f") == 0:
+                                    B.local_ranges[(o["l"], "0")] = (0, hi0 + 1)
+                        self.ctx.extra.setdefault("loop_bounds", []).append("%s: local %s in [0, %d] (halved every iteration, starts at most at %d)" % (
+                            fn.path.split("::")[-1], fn.locals[n].get("name") or n, hi0 + 1, hi0))
                 # (c) counters
                 for c in int_locals:
                     if c == n:
